@@ -191,8 +191,14 @@ impl<'a, R: BufRead> LogCat2DltMsgIterator<'a, R> {
 fn parse_time_str(timestamp: &str) -> u64 {
     let dot_idx = timestamp.find('.').unwrap_or(timestamp.len());
 
-    let timestamp_secs_us: u64 =
-        timestamp[0..dot_idx].parse::<u64>().unwrap_or_default() * US_PER_SEC;
+    let timestamp_secs_us: u64 = match timestamp[0..dot_idx]
+        .parse::<u64>()
+        .unwrap_or_default()
+        .checked_mul(US_PER_SEC)
+    {
+        Some(t) => t,
+        None => return 0, // too large, treat as parsing error
+    };
 
     let timestamp_fraction_us = if dot_idx < timestamp.len() {
         let timestamp_fraction_str = &timestamp[dot_idx + 1..];
@@ -215,7 +221,10 @@ fn parse_time_str(timestamp: &str) -> u64 {
     } else {
         0
     };
-    timestamp_secs_us + timestamp_fraction_us
+    match timestamp_secs_us.checked_add(timestamp_fraction_us) {
+        Some(t) if t <= i64::MAX as u64 => t,
+        _ => 0, // too large, treat as parsing error
+    }
 }
 
 /// parse a mmdd string into a NaiveDate:
@@ -393,20 +402,21 @@ where
                                     )
                                     .num_microseconds()
                                     .unwrap_or_default()
+                                    .max(0)
                                     as u64;
                                 self.threadtime_last_monotonic_timestamp = timestamp_us;
                                 (timestamp_us, self.recorded_start_time_us + timestamp_us)
                             } else {
                                 // here we'd need to use the max timestamp_us from the case a) as first timestamp
                                 let recorded_time_us =
-                                    threadtime.and_utc().timestamp_micros() as u64;
+                                    threadtime.and_utc().timestamp_micros().max(0) as u64;
                                 let timestamp_us = if let Some(timestamp_reference) =
                                     self.threadtime_timestamp_reference
                                 {
                                     recorded_time_us.saturating_sub(timestamp_reference)
                                 } else {
-                                    let timestamp_reference =
-                                        recorded_time_us - self.threadtime_last_monotonic_timestamp;
+                                    let timestamp_reference = recorded_time_us
+                                        .saturating_sub(self.threadtime_last_monotonic_timestamp);
                                     self.threadtime_timestamp_reference = Some(timestamp_reference);
                                     self.threadtime_last_monotonic_timestamp
                                 };
